@@ -341,7 +341,7 @@ def gen_perc(rnd):
     T = rnd.choice([0.0, 1.0, 0.5, 0.25, 0.75, 0.125, rnd.random(), (rnd.randrange(M + 1) / M) if M else 0.5])
     if M and rnd.random() < 0.35: T = min(1.0, near_fraction(rnd, M))
     if M and rnd.random() < 0.4: T = tricky_fraction(rnd, M) or T
-    spec = dict(kind='perc', n=n, edges=edges, T=T, seed=rnd.random(), shuffled_nodes=rnd.random() < 0.4, mutocc=rnd.random() < 0.25, follow=rnd.random() < 0.5, limit1=rnd.random() < 0.3,
+    spec = dict(kind='perc', n=n, edges=edges, T=T, seed=rnd.random(), shuffled_nodes=rnd.random() < 0.4, Tform=rnd.choice(['float', 'float', 'int', 'npint', 'bool', 'npfloat']), mutocc=rnd.random() < 0.25, follow=rnd.random() < 0.5, limit1=rnd.random() < 0.3,
                 labels=rnd.choice(['int', 'int', 'str', 'mixed']))
     if rnd.random() < 0.4 and M:
         # an earlier run of the same objects over a different network (often one with the same number of edges)
@@ -413,7 +413,11 @@ def run_perc14(spec):
             d.setNetworkGenerator(FixedNetwork(g0))
             d.set({Percolate.T: spec['prev_T']}); d.setUp(d.parameters()); d.tearDown()
             d.setNetworkGenerator(FixedNetwork(g)); order.clear(); st.clear(); Probe.seen = None
-        d.set({Percolate.T: T}); d.setUp(d.parameters())
+        Tgiven = T
+        if float(T).is_integer() and spec.get('Tform') in ('int', 'npint', 'bool'):       # the same number as a Python int, a bool or a numpy integer
+            Tgiven = int(T) if spec['Tform'] == 'int' else bool(T) if spec['Tform'] == 'bool' else numpy.int64(int(T))
+        elif spec.get('Tform') == 'npfloat': Tgiven = numpy.float64(T)
+        d.set({Percolate.T: Tgiven}); d.setUp(d.parameters())
         wg = d.network()
         M = len(order.get('es', []))
         occ = int(M * T)
